@@ -1,4 +1,3 @@
 package main
 
-func doSession(rq *Req) *Resp   { return &Resp{ID: rq.ID, End: "harness-error:not implemented"} }
 func doRunSource(rq *Req) *Resp { return &Resp{ID: rq.ID, End: "harness-error:not implemented"} }
